@@ -133,6 +133,17 @@ func monC10(c *Case, tr *Trace) []Violation {
 			} else if term.Code != 14 {
 				add("late_rpc_not_refused", term.End, "rpc %d (new_stream processed at step %d, after the shutdown): terminal result code %d (%s), want Unavailable", i, nsRecv, term.Code, term.Err)
 			}
+			// A call with a single request (unary, server-streaming) is made by generated code as NewStream + SendMsg +
+			// CloseSend, and an error from that SendMsg is handed to the application as the result of the RPC: if the refusal
+			// overtook the request, the send either succeeds (the status comes from Recv) or reports the refusal itself.
+			if !reqStreams(c.RPCs[i].Shape) {
+				for _, o := range tr.Ops {
+					if o.RPC == i && o.Side == "caller" && o.Kind == "send" && o.Idx == 0 && !o.Pending() && o.Code != CodeNil && o.Code != 14 &&
+						closeRecv >= 0 && closeRecv < o.Start && (stopFired < 0 || o.End < stopFired) {
+						add("late_rpc_not_refused", o.End, "rpc %d (%s, new_stream processed at step %d, after the shutdown; the refusal reached the calling end at step %d): the call's one SendMsg failed with code %d (%s) - generated code returns that to the application as the RPC's result; want Unavailable (or success, with Unavailable from Recv)", i, c.RPCs[i].Shape, nsRecv, closeRecv, o.Code, o.Err)
+					}
+				}
+			}
 		}
 	}
 	// the tunnel stays up for the accepted RPCs
